@@ -13,7 +13,7 @@ A rule configuration is a plain dict:
 """
 from __future__ import annotations
 
-from .names import descendants, pairwise_unrelated
+from .names import descendants, pairwise_unrelated, related
 
 VERBS = ("should", "should_only", "should_not")
 DIRS = ("import", "be")
@@ -127,8 +127,15 @@ def strict_domain(cfg, mods):
             return False, "unknown-module"
     if len({k for k, _ in subs}) > 1 or (objs and len({k for k, _ in objs}) > 1):
         return False, "mixed-filter-kinds"
-    if not pairwise_unrelated(names):
+    snames, onames = [n for _, n in subs], [n for _, n in objs]
+    if any(related(a, b) for a in snames for b in onames):
         return False, "related-subjects-objects"
+    if not pairwise_unrelated(names):
+        # subjects related among themselves / objects related among themselves: requirements on imports between
+        # a subject and an object are judged per pair and stay unambiguous; what counts as 'something else' does not
+        edge_only = cfg["verb"] in ("should", "should_not") and not cfg["exc"] and not cfg.get("anything")
+        if not edge_only or len(set(snames)) != len(snames) or len(set(onames)) != len(onames):
+            return False, "related-subjects-objects"
     return True, ""
 
 
